@@ -161,9 +161,10 @@ Print Assumptions mon_rejecting_is_monotone.
 Print Assumptions mon_rejected_prefix_stays_rejected.
 
 (** * M10 -- no false alarms: the monitor accepts the trace of EVERY execution of the model Model/CorePrep.v (all events,
-    the prepared-statement path included), for any host naming whose keys are non-empty and comma-free.  The only side
-    condition: error frames carry no comma in their write type and only the five fields the record renders
-    ([traceable_err]); without it the monitor raises a false alarm ([comma_in_write_type_false_alarm]). *)
+    the prepared-statement path included), for any host naming whose keys are non-empty and comma-free.  The write type of
+    an error frame is arbitrary (commas included: [err_of_fields] takes everything after the fourth comma); the only side
+    condition left is that error frames carry nothing but the five fields the record renders ([traceable_err]: the four
+    fields the policy never reads are 0). *)
 Module M10.
 Import CorePrep MonitorTrace MonitorSimProofs.
 
@@ -177,7 +178,15 @@ Theorem mon_model_traces_accepted_host_key : forall es, Forall traceable_event e
 Proof. exact model_traces_accepted. Qed.
 Print Assumptions mon_model_traces_accepted_host_key.
 
-Theorem mon_false_alarm_on_comma_in_write_type : exists es, fst (mrun init_mstate (trace_of host_key es) 0) <> None.
-Proof. exact comma_in_write_type_false_alarm. Qed.
-Print Assumptions mon_false_alarm_on_comma_in_write_type.
+(** the rendering of an error frame is read back exactly, whatever its write type *)
+Theorem mon_error_text_round_trip : forall m, traceable_err m -> err_of_fields (err_text m) = m.
+Proof. exact err_of_fields_text. Qed.
+Print Assumptions mon_error_text_round_trip.
+
+(** e.g. the execution with write type "BATCH_LOG,x" is accepted *)
+Theorem mon_comma_in_write_type_accepted :
+  Forall traceable_event comma_events /\ run_monitor (L [I 8; I 1; L (trace_of host_key comma_events)]) = L [I 0] /\
+  err_of_fields (str "4352,0,0,false,BATCH_LOG,x") = mk_err 4352 0 0 false (str "BATCH_LOG,x").
+Proof. exact comma_in_write_type_accepted. Qed.
+Print Assumptions mon_comma_in_write_type_accepted.
 End M10.
